@@ -201,7 +201,7 @@ class AlgorithmInvokeCall(Call):
                     f"(optional) name of an invoke must be a string "
                     f"containing a valid name (with any spaces replaced by "
                     f"underscores) but found '{routine_root_name}'.")
-            if not routine_root_name.startswith("invoke"):
+            if not routine_root_name.startswith("invoke_"):
                 routine_root_name = f"invoke_{routine_root_name}"
         else:
             routine_root_name = f"invoke_{self._index}"
